@@ -226,7 +226,7 @@ def run_check(prop, tier, seed, replay=None):
         except Exception as e:  # extraction failure alone is not a violation (DESIGN 3.2)
             prov[getattr(g, "__name__", "gen")] = "EXTRACTION FAILED (%s); committed copy used" % e
     ok, lakelog, lake_s = vlib.build_lean(mod.LEAN_TARGETS)
-    forb = vlib.grep_forbidden()
+    forb = vlib.grep_forbidden(list(mod.IMPORTS) + list(getattr(mod, 'DRIVER_MODULES', [])))
     thms = list(mod.THEOREMS)
     axioms, auditlog = vlib.audit(prop, thms, mod.IMPORTS) if thms else ({}, "")
     obligations = []
